@@ -35,6 +35,9 @@ type WriteSet struct {
 	ReaderCells  map[*ssa.Alloc]bool
 	freshIn      func(*ssa.Alloc) bool
 	regionBlocks map[*ssa.BasicBlock]bool
+	// Except (only meaningful with All): heap keys that are preserved although everything else may be written
+	// (from trusted `preserves` frame clauses, bmain.go); nil means no exception
+	Except map[string]bool
 }
 
 func newWriteSet() *WriteSet {
@@ -46,11 +49,16 @@ func (w *WriteSet) setAll(why string) {
 		w.All = true
 		w.Why = why
 	}
+	w.Except = nil
 }
 
 func (w *WriteSet) merge(o *WriteSet) {
 	if o.All {
-		w.setAll(o.Why)
+		if o.Except != nil {
+			w.setAllExcept(o.Why, o.Except)
+		} else {
+			w.setAll(o.Why)
+		}
 	}
 	for k := range o.Heap {
 		w.Heap[k] = true
@@ -472,6 +480,10 @@ func (e *Engine) contractWrites(c *FuncContract, w *WriteSet) {
 	if c.Flags["pure"] != "" {
 		return
 	}
+	if c.Flags["preserves"] != "" {
+		w.setAllExcept("preserves clause of "+shortKey(c.Key), e.preservedKeys(c))
+		return
+	}
 	if c.Flags["assigns"] != "" {
 		for _, a := range c.Assigns {
 			if a == "nothing" || a == "" {
@@ -489,7 +501,7 @@ func (e *Engine) contractWrites(c *FuncContract, w *WriteSet) {
 }
 
 func (e *Engine) funcWrites(f *ssa.Function, w *WriteSet, visiting map[*ssa.Function]bool) {
-	if c := e.contractFor(f); c != nil && (c.Flags["assigns"] != "" || c.Flags["pure"] != "") {
+	if c := e.contractFor(f); c != nil && (c.Flags["assigns"] != "" || c.Flags["pure"] != "" || c.Flags["preserves"] != "") {
 		e.contractWrites(c, w)
 		return
 	}
